@@ -249,7 +249,7 @@ def analyse_shape(L, shape):
     """run one shape through the engine; returns dict(stats=..., findings=[(cat, what, vals)])"""
     t0 = time.time()
     E, rs, syms, info = L.run_shape(shape)
-    findings = []; stats = dict(paths=len(rs), ret=0, throw=0, cut=0, obligations=0, discharged=0)
+    findings = []; stats = dict(paths=len(rs), ret=0, throw=0, cut=0, obligations=0, discharged=0); smt = []
     defined = [x for kk, m2, x in shape if kk in (K_LABEL, K_FUNC, K_PROC)]
     undefined = [a for k, mn, a in shape if k in (K_REL, K_ABS) and a not in defined]
     def vals_of(m):
@@ -309,11 +309,15 @@ def analyse_shape(L, shape):
             if z3.is_false(c): ok_, m = E.sat(st)
             else: ok_, m = E.sat(st, z3.Not(c))
             if ok_: findings.append((cat, what, vals_of(m)))
-            else: stats['discharged'] += 1
+            else:
+                stats['discharged'] += 1
+                if len(smt) < 2 and not z3.is_false(c):
+                    from lib.report import to_smt2
+                    smt.append(('unsat', to_smt2(list(st.pc) + [z3.Not(c)]), what))
     for u in E.ub:
         findings.append(('ub', f"{u[0]}: {u[1]}", vals_of(u[2])))
     stats.update(queries=E.nq, solver_s=E.tq, steps=E.steps, wall=time.time() - t0, functions=sorted(E.called))
-    return dict(shape=shape, stats=stats, findings=findings)
+    return dict(shape=shape, stats=stats, findings=findings, smt=smt)
 
 def concrete_check(L, shape, vals, line):
     """oracle on the native output line of asm_layout's driver; returns list of (cat, what) that fail natively"""
